@@ -8,12 +8,16 @@ H("G-INCR", "incr_successors_prefix_only", "C02", "successor list of length 0..=
   "only the listed successors are rewritten; an empty list deletes nothing")
 
 group("G-SYNCENC", "automerge", "am_sync.rs", "sync",
-      ["sync::MessageFlags::{new,set,contains,encode,parse_bytes}", "storage::parse::{length_prefixed_bytes,leb128_u64,take_n,Input::new}",
+      ["sync::MessageFlags::{new,set,contains,encode,parse_bytes}", "sync::Message::encode", "sync::{encode_hashes,encode_many}", "sync::MessageVersion::encode", "storage::parse::{length_prefixed_bytes,leb128_u64,take_n,Input::new}",
        "leb128::write::unsigned (dependency, executed from source)"])
 H("G-SYNCENC", "flags_encode_parse_roundtrip", "C22 C19", "every subset of the 7 flag bits; unwind 6",
   "encode = [2, 0x02, 0x80|bits]; the section read as Message::parse reads it gives back exactly the flags; READ_ONLY / SYNC_RESET / SUPPORTS_SYNC_RESET independent")
 H("G-SYNCENC", "flags_parse_any_section_len3", "C22 C15", "EVERY 3-byte flags section; unwind 6",
   "parse_bytes total; result = union of the low 7 bits of marker bytes; legacy bytes set nothing")
+H("G-SYNCENC", "message_encode_framing_1head", "C19", "any version byte, any 256-bit head, flags absent or any subset of the 7 bits; no need/have/changes; unwind 34",
+  "Message::encode = [type, 1, head, 0, 0, 0] + flags section iff flags present (compared byte by byte at an arbitrary index)")
+H("G-SYNCENC", "message_encode_framing_need_and_chunk", "C19", "any version byte, any 256-bit needed hash, one change chunk of any 2 bytes; no heads/have/flags; unwind 34",
+  "Message::encode = [type, 0, 1, need, 0, 1, 2, c0, c1] (compared byte by byte at an arbitrary index)", tier="thorough")
 
 group("G-SYNCSTATE", "automerge", "am_sync_state.rs", "sync::state",
       ["sync::state::State::{new,new_read_only,encode,decode,parse,set_read_only,peer_supports_sync_reset,supports_v2_messages,send_doc}",
